@@ -41,6 +41,7 @@ fn catalog() -> Arc<Cat> {
     zone.add(&apex, Type::NS, Class::IN, Ttl::from(60), w("ns.example.test.").as_slice().try_into().unwrap()).unwrap();
     // (a_b and a<DEL>b: two names that differ only in bit 5 of an octet that is not a letter - two streams)
     for (n, a) in [("www.example.test.", 4u8), ("ns.example.test.", 9), ("*.wild.example.test.", 5), ("*.w2.example.test.", 6), ("mail.example.test.", 7),
+                   ("ab.c.example.test.", 14), ("a.bc.example.test.", 15), ("abc.example.test.", 16),
                    ("a_b.example.test.", 10), ("a\\127b.example.test.", 11), ("host1.example.test.", 12), ("host\\017.example.test.", 13)] {
         zone.add(&nm(n), Type::A, Class::IN, Ttl::from(60), (&[192u8, 0, 2, a][..]).try_into().unwrap()).unwrap();
     }
@@ -68,6 +69,9 @@ fn qpool() -> Vec<(&'static str, &'static str)> {
         ("a.w2.example.test.", "*.w2.example.test."),
         ("a.fat.example.test.", "*.fat.example.test."),
         ("b.fat.example.test.", "*.fat.example.test."),
+        ("ab.c.example.test.", "ab.c.example.test."),      // the same octets, split into labels differently: three streams
+        ("a.bc.example.test.", "a.bc.example.test."),
+        ("abc.example.test.", "abc.example.test."),
         ("a_b.example.test.", "a_b.example.test."),
         ("a\\127b.example.test.", "a\\127b.example.test."),
         ("host1.example.test.", "host1.example.test."),
@@ -321,8 +325,22 @@ fn burst(r: &mut StdRng, cat: &Arc<Cat>, log: &Arc<Mutex<Vec<Value>>>, out: &mut
     // up for a while): the stream's own clock starts with its first response, not with the bucket's past
     let aged = r.gen_bool(0.4);
     if aged { server.verif_rrl_shift(Duration::from_secs(2)); }
-    let server = Arc::new(server);
+    // a quarter of the bursts meet a stream that already exists and whose next refill has just come due: a few requests
+    // from this thread first, then every bucket's last refill moved 1.2 s into the past; the burst's first request does the
+    // one refill, under contention
+    let primed = !aged && r.gen_bool(0.33);
     log.lock().unwrap().clear();
+    let mut primed_n = 0usize;
+    if primed {
+        let mut m = vec![0, 99, 0, 0, 0, 1, 0, 0, 0, 0, 0, 0];
+        m.extend_from_slice(&w("www.example.test."));
+        m.extend_from_slice(&[0, 1, 0, 1]);
+        let mut buf = vec![0xFFu8; 1232];
+        primed_n = r.gen_range(1..=(rate * window) as usize + 2);
+        for _ in 0..primed_n { let _ = server.handle_message(&m, ReceivedInfo::new(Ipv4Addr::new(10, 0, 0, 1).into(), Transport::Udp), &mut buf); }
+        server.verif_rrl_shift(Duration::from_millis(1200));
+    }
+    let server = Arc::new(server);
     let barrier = Arc::new(Barrier::new(nthreads));
     let wall = Instant::now();
     // a spin gate after the barrier: the threads' first requests (the ones that create the stream's entry) start
@@ -365,5 +383,5 @@ fn burst(r: &mut StdRng, cat: &Arc<Cat>, log: &Arc<Mutex<Vec<Value>>>, out: &mut
     let mut evs = log.lock().unwrap().clone();
     evs.sort_by_key(|e| e["seq"].as_u64().unwrap());
     let s = totals.lock().unwrap();
-    out.emit(json!({"ev": "Burst", "rate": rate, "window": window, "threads": nthreads, "n": nthreads * per, "full": s.0, "limited": s.1, "panics": s.2, "aged": aged, "wall_ms": wall_ms, "events": evs}));
+    out.emit(json!({"ev": "Burst", "rate": rate, "window": window, "threads": nthreads, "n": nthreads * per, "full": s.0, "limited": s.1, "panics": s.2, "aged": aged, "primed": primed_n, "wall_ms": wall_ms, "events": evs}));
 }
